@@ -553,6 +553,34 @@ spec:
   - port: {number: 9000, name: tcp-9000, protocol: TCP}
     hosts: ["*"]
 `},
+	{name: "gw-two-service-ports-one-target-port", kind: "GW", core: true, shape: "shared-target-port", yaml: hdrSE + `
+metadata: {name: ingressgateway-service, namespace: istio-system}
+spec:
+  hosts: [istio-ingressgateway.istio-system.svc.cluster.local]
+  location: MESH_INTERNAL
+  resolution: STATIC
+  ports:
+  - {number: 80, name: http, protocol: HTTP, targetPort: 8080}
+  - {number: 443, name: https, protocol: HTTPS, targetPort: 8443}
+  - {number: 8443, name: https-alt, protocol: HTTPS, targetPort: 8443}
+  endpoints:
+  - {address: 10.9.9.1, labels: {istio: ingressgateway}}
+---
+` + hdrGW + `
+metadata: {name: gw-alt, namespace: istio-system}
+spec:
+  selector: {istio: ingressgateway}
+  servers:
+  - port: {number: 8443, name: https-alt, protocol: HTTPS}
+    hosts: ["*.example.com"]
+    tls: {mode: SIMPLE, credentialName: cred-alt}
+  - port: {number: 8443, name: https-c, protocol: HTTPS}
+    hosts: [c.example.com]
+    tls: {mode: SIMPLE, credentialName: cred-c}
+  - port: {number: 443, name: https-c2, protocol: HTTPS}
+    hosts: [c.example.com]
+    tls: {mode: SIMPLE, credentialName: cred-c2}
+`},
 	{name: "gw-http-on-443", kind: "GW", yaml: hdrGW + `
 metadata: {name: gw-http443, namespace: istio-system}
 spec:
